@@ -58,12 +58,12 @@ Proof.
 Qed.
 
 (* ---- single-variable operations ---------------------------------------------------------- *)
-Lemma c_new c : 0 <= c -> commutes (fun _ => (new_table (ctor_cap c), RNone)) (fun _ => ([], RNone)).
+Lemma c_new x c : 0 <= c -> commutes (fun _ => (new_table x (ctor_cap c), RNone)) (fun _ => ([], RNone)).
 Proof.
   intros Hc t _. simpl. split; auto. apply new_table_ok. unfold ctor_cap. destruct (Z.eqb_spec c 0); lia.
 Qed.
 
-Lemma c_newd : commutes (fun _ => (new_table default_capacity, RNone)) (fun _ => ([], RNone)).
+Lemma c_newd x : commutes (fun _ => (new_table x default_capacity, RNone)) (fun _ => ([], RNone)).
 Proof. intros t _. simpl. split; auto. apply new_table_ok. unfold default_capacity, Gen_Hash.gen_default_capacity. lia. Qed.
 
 Lemma c_find k : commutes (fun t => (t, RIter (it_of (find_node t k)))) (fun l => (l, RIter (s_find keqb l k))).
@@ -190,8 +190,8 @@ Proof.
     rewrite H2, H3. destruct (abs t); [discriminate|reflexivity].
 Qed.
 
-Lemma c_clear : commutes (fun t => (clear t, RNone)) (fun _ => ([], RNone)).
-Proof. intros t Hok. simpl. destruct (clear_refines K hash t Hok) as [H1 H2]. split; auto. Qed.
+Lemma c_clear x : commutes (fun t => (clear x t, RNone)) (fun _ => ([], RNone)).
+Proof. intros t Hok. simpl. destruct (clear_refines K hash x t Hok) as [H1 H2]. split; auto. Qed.
 
 Lemma node_res_eq kd (n : node K) : node_res kd n = s_entry_res kd (ent K n).
 Proof. destruct kd; reflexivity. Qed.
@@ -236,7 +236,7 @@ Proof. unfold abs_st. apply map_upd. Qed.
 Lemma state_ok_upd st x t : state_ok st -> chains_ok t -> state_ok (upd x t st).
 Proof. intros H1 H2. apply Forall_upd; auto. Qed.
 
-Lemma new_default_ok : chains_ok (new_table default_capacity).
+Lemma new_default_ok x : chains_ok (new_table x default_capacity).
 Proof. apply new_table_ok. unfold default_capacity, Gen_Hash.gen_default_capacity. lia. Qed.
 
 Lemma step_refines kd st o :
@@ -261,22 +261,26 @@ Proof.
   - apply with_var_refines; auto. apply c_remove_front.
   - apply with_var_refines; auto. apply c_remove_back.
   - apply with_var_refines; auto. apply c_clear.
-  - (* OSwap *) apply with_2_refines; auto. intros a b Ea Eb Ha Hb. cbn [fst snd]. split.
+  - (* OSwap: each side takes over the other's fields and re-anchors the list on its own sentinel; that this
+       amounts to exchanging the two sequences needs the invariant (ok_endprev): see take_refines *)
+    apply with_2_refines; auto. intros a b Ea Eb Ha Hb. cbn [fst snd].
+    destruct (take_refines K hash x b Hb) as [Hb1 [Hb2 _]]. destruct (take_refines K hash y a Ha) as [Ha1 [Ha2 _]].
+    split.
     + apply state_ok_upd; auto. apply state_ok_upd; auto.
-    + rewrite !abs_st_upd. reflexivity.
+    + rewrite !abs_st_upd, Ha2, Hb2. reflexivity.
   - apply with_var_refines; auto. apply c_front.
   - apply with_var_refines; auto. apply c_back.
   - (* OCopy *) assert (Hkd : kd <> KPool) by (intros ->; discriminate).
     apply with_2_refines; auto. intros a b Ea Eb Ha Hb. cbn [fst snd].
-    destruct (copy_refines K keqb hash keqb_spec kd (new_table default_capacity) b Hkd new_default_ok eq_refl Hb)
+    destruct (copy_refines K keqb hash keqb_spec kd (new_table x default_capacity) b Hkd (new_default_ok x) eq_refl Hb)
       as [H1 H2].
     split; [apply state_ok_upd; auto|]. rewrite abs_st_upd, H2. reflexivity.
   - (* OAssign *) assert (Hkd : kd <> KPool) by (intros ->; discriminate).
     apply with_2_refines; auto. intros a b Ea Eb Ha Hb.
     destruct (Nat.eqb_spec x y) as [Exy|Exy]; cbn [fst snd].
     + split; auto. subst y. f_equal. apply upd_same. unfold abs_st. rewrite nth_error_map', Eb. reflexivity.
-    + destruct (clear_refines K hash a Ha) as [Hc1 Hc2].
-      destruct (copy_refines K keqb hash keqb_spec kd (clear a) b Hkd Hc1 Hc2 Hb) as [H1 H2].
+    + destruct (clear_refines K hash x a Ha) as [Hc1 Hc2].
+      destruct (copy_refines K keqb hash keqb_spec kd (clear x a) b Hkd Hc1 Hc2 Hb) as [H1 H2].
       split; [apply state_ok_upd; auto|]. rewrite abs_st_upd, H2. reflexivity.
   - (* OEq *) apply with_2_refines; auto. intros a b Ea Eb Ha Hb. cbn [fst snd]. split; auto.
     rewrite (eq_refines K keqb hash kd a b Ha Hb). reflexivity.
@@ -315,16 +319,21 @@ Qed.
 
 Definition start (caps : list Z) : list table := init (map ctor_cap caps).
 
-Lemma start_ok caps : Forall (fun c => 0 <= c) caps -> state_ok (start caps).
+Lemma init_from_ok caps : forall i, Forall (fun c => 0 <= c) caps -> state_ok (init_from i (map ctor_cap caps)).
 Proof.
-  intros H. unfold start, init, state_ok. rewrite map_map. apply Forall_forall. intros t Hi.
-  apply in_map_iff in Hi. destruct Hi as [c [<- Hc]]. apply new_table_ok.
-  assert (Hc0 : 0 <= c) by (revert c Hc; apply Forall_forall; exact H).
-  unfold ctor_cap. destruct (Z.eqb_spec c 0); lia.
+  induction caps as [|c rest IH]; intros i H; cbn [map init_from]; [constructor|].
+  inversion H as [|? ? Hc Hr]; subst. constructor; [|apply IH; exact Hr].
+  apply new_table_ok. unfold ctor_cap. destruct (Z.eqb_spec c 0); lia.
 Qed.
 
+Lemma start_ok caps : Forall (fun c => 0 <= c) caps -> state_ok (start caps).
+Proof. intros H. unfold start, init. apply init_from_ok. exact H. Qed.
+
+Lemma abs_init_from (cs : list Z) : forall i, abs_st (init_from i cs) = map (fun _ => []) cs.
+Proof. induction cs as [|c rest IH]; intros i; cbn [init_from map abs_st]; [reflexivity|]. f_equal. apply IH. Qed.
+
 Lemma abs_start caps : abs_st (start caps) = map (fun _ => []) caps.
-Proof. unfold start, init, abs_st. rewrite !map_map. reflexivity. Qed.
+Proof. unfold start, init. rewrite abs_init_from. rewrite map_map. reflexivity. Qed.
 
 Theorem refines_ordered_map kd caps ops :
   Forall (fun c => 0 <= c) caps ->
